@@ -1,0 +1,124 @@
+//go:build verif
+
+package checker
+
+// Verification hook (add-only, build tag `verif`): observes the context discipline of
+// checkMethod on a real Checker. A closure literal is type-checked (checkExpression →
+// checkClosureLiteralNode → checkMethod) inside a synthetic enclosing-method context in which
+// every context field has a non-default value; the function reports which fields of the Checker
+// differ afterwards (reflective comparison of ALL fields, none assumed).
+
+import (
+	"fmt"
+	"reflect"
+	"sort"
+
+	"github.com/elk-language/elk/parser"
+	"github.com/elk-language/elk/parser/ast"
+)
+
+// fields that legitimately change while checking an expression
+var verifCtxVolatile = map[string]bool{
+	"Errors":   true, // diagnostics
+	"ASTCache": true,
+	"compiler": true, // bytecode is emitted into it
+}
+
+func verifShallow(v reflect.Value) string {
+	switch v.Kind() {
+	case reflect.Ptr, reflect.UnsafePointer, reflect.Chan, reflect.Func, reflect.Map:
+		return fmt.Sprintf("%s@%x", v.Kind(), v.Pointer())
+	case reflect.Interface:
+		if v.IsNil() {
+			return "nil"
+		}
+		return v.Elem().Type().String() + ":" + verifShallow(v.Elem())
+	case reflect.Slice:
+		s := fmt.Sprintf("len=%d[", v.Len())
+		for i := 0; i < v.Len(); i++ {
+			s += verifShallow(v.Index(i)) + ","
+		}
+		return s + "]"
+	case reflect.Struct:
+		s := "{"
+		for i := 0; i < v.NumField(); i++ {
+			s += verifShallow(v.Field(i)) + ","
+		}
+		return s + "}"
+	case reflect.Bool:
+		return fmt.Sprint(v.Bool())
+	case reflect.Int, reflect.Int8, reflect.Int16, reflect.Int32, reflect.Int64:
+		return fmt.Sprint(v.Int())
+	case reflect.Uint, reflect.Uint8, reflect.Uint16, reflect.Uint32, reflect.Uint64, reflect.Uintptr:
+		return fmt.Sprint(v.Uint())
+	case reflect.String:
+		return v.String()
+	}
+	return v.Kind().String()
+}
+
+func (c *Checker) verifSnapshot() map[string]string {
+	out := make(map[string]string)
+	v := reflect.ValueOf(c).Elem()
+	t := v.Type()
+	for i := 0; i < v.NumField(); i++ {
+		name := t.Field(i).Name
+		if verifCtxVolatile[name] {
+			continue
+		}
+		out[name] = verifShallow(v.Field(i))
+	}
+	// the current local environment's bindings (pointer identity of the env is in localEnvs)
+	env := c.currentLocalEnv()
+	names := make([]string, 0, len(env.locals))
+	for n, l := range env.locals {
+		names = append(names, fmt.Sprintf("%s=%p", n.String(), l))
+	}
+	sort.Strings(names)
+	out["currentLocalEnv.locals"] = fmt.Sprint(names)
+	return out
+}
+
+// VerifClosureContextDiff type-checks the expression `src` (a closure literal) in the context of
+// a method `def f: Int ! String` that has already seen a `defer`, inside a `do … catch`, with a
+// local defined, and returns the names of the Checker fields that differ afterwards, plus the
+// failure diagnostics produced.
+func VerifClosureContextDiff(src string) (leaked []string, diags []string, err error) {
+	c := New()
+	program, perr := parser.Parse("<verif-ctx>", src)
+	if perr != nil && perr.IsFailure() {
+		return nil, nil, fmt.Errorf("parse error: %v", perr)
+	}
+	if len(program.Body) != 1 {
+		return nil, nil, fmt.Errorf("expected one statement")
+	}
+	stmt, ok := program.Body[0].(*ast.ExpressionStatementNode)
+	if !ok {
+		return nil, nil, fmt.Errorf("expected an expression statement")
+	}
+	c.Filename = "<verif-ctx>"
+	c.phase = expressionPhase
+	c.mode = methodMode
+	c.returnType = c.StdInt()
+	c.throwType = c.StdString()
+	c.setHasDefer(true)
+	c.setGenerator(false)
+	c.pushCatchScope(makeCatchScope(c.StdString(), true))
+	c.pushNestedLocalEnv(defaultLocalEnvType)
+	c.addLocal("outer", newLocal(c.StdInt(), true, false))
+
+	before := c.verifSnapshot()
+	c.checkExpression(stmt.Expression)
+	after := c.verifSnapshot()
+
+	for k, b := range before {
+		if after[k] != b {
+			leaked = append(leaked, k+": "+b+" -> "+after[k])
+		}
+	}
+	sort.Strings(leaked)
+	for _, d := range c.Errors.DiagnosticList {
+		diags = append(diags, d.Severity.String()+" "+d.Message)
+	}
+	return leaked, diags, nil
+}
